@@ -622,7 +622,8 @@ class C18(Check):
     # -- strings and URLs through the value classes ----------------------------------------------------
     HEXD = '0123456789abcdefABCDEF'
     STR_ALPHA = ['a', 'b', 'z', 'Z', 'f', 'A', '0', '9', ' ', '"', "'", '\\', '(', ')', ',', ';', '\n', '\r', '\f', '\t',
-                 'é', '€', '\U0001F600', '/', '.', '#', '%', '{', '}', '*', '-', ':', '~', '!', '@', '\x7f', '\xa0']
+                 'é', '€', '\U0001F600', '/', '.', '#', '%', '{', '}', '*', '-', ':', '~', '!', '@', '\x7f', '\xa0', '\u3000',
+                 '\x0b', '\x01', '\x1b', '\x85']
 
     def render_string(self, rng, content, quote):
         """independent spelling choices for a CSS string with the given content (list of characters)"""
@@ -1124,16 +1125,16 @@ class C18(Check):
             if style == 'u':
                 inner = self.render_url_unquoted(rng, content)
                 sp = self.last_spell
-                # white space (as Python's str.strip sees it) at the end however spelled, at the start unless
+                # CSS white space (what urivalue strips) at the end however spelled, at the start unless
                 # written as a simple escape; or the same quote character at both ends, the first written as a hex escape
-                edge_ws = bool(want) and (want[-1].isspace() or (want[0].isspace() and sp[0] != 'simple')
+                css_ws = ' \t\r\n\f'
+                edge_ws = bool(want) and (want[-1] in css_ws or (want[0] in css_ws and sp[0] != 'simple')
                                           or (want[0] in '"\'' and want[0] == want[-1] and sp[0] == 'hex'))
             else:
                 inner = self.render_string(rng, content, style)
                 linecont = self.last_linecont
             hexq = self.last_hexquote_after_bs
             sdq = self.last_simple_dquote
-            ctrl = any((ord(c) < 0x20 and not c.isspace()) or c == '\x7f' for c in want)
             name = rng.choice(['url', 'url', 'URL', 'Url'])
             src = name + '(' + pad1 + inner + pad2 + ')'
             w0 = {'call': 'PropertyValue(text)', 'text': src}
@@ -1145,10 +1146,10 @@ class C18(Check):
             r = pv[0].uri
             kf_read = ('C18-backslash-then-hex-escape' if hexq else 'C18-url-line-continuation' if linecont
                        else 'C18-url-edge-escape' if edge_ws else None)
-            needs_quotes = any(c in '()\'";,' or c.isspace() for c in want)
+            needs_quotes = any(c in '()\'";,' or c.isspace() or ord(c) < 0x20 or c == '\x7f' for c in want)
             kf = kf_read or ('C18-escaped-dquote' if sdq
                              else 'C18-url-trailing-backslash' if (style == 'u' and needs_quotes and want.endswith('\\'))
-                             else 'C18-url-control-char' if ctrl else None)
+                             else None)
             ctx.case(key=('url', src), nontrivial=(src != 'url(' + want + ')'),
                      kind='url:%s%s' % ('unquoted' if style == 'u' else 'quoted', ':region' if kf else ''),
                      sample={'url': src, 'uri': r, 'written': pv.cssText})
